@@ -1,5 +1,128 @@
-(** C16 placeholder during development *)
-From Coq Require Import List.
-From Dadi Require Import Base.Num Model.DemesFront.
-Example C16_placeholder : std_wiring 1 = mkWiring (0 :: nil) nil (0 :: nil).
-Proof. reflexivity. Qed.
+(** C16 — demes graphs and native dadi models give the same spectrum in any units or order.
+    Only statements; every proof is [exact <lemma>].  Model: Model/DemesFront.v (the importer as a function from a
+    resolved graph + sampling spec to the sequence of calls into the numerical layer).  [gmap a b r] multiplies the times
+    of a graph by a, its sizes by b and its rates by r; [evmap a] the times of the events `demes` reports. *)
+From Coq Require Import ZArith QArith Reals List Bool Arith Lra Lia Permutation.
+From Dadi Require Import Base.Num Base.NumR Base.NumQ Model.DemesFront
+     Proofs.DemesBase Proofs.DemesRescale Proofs.DemesUnits Proofs.DemesOrder Proofs.DemesExport.
+Import ListNotations.
+Local Open Scope R_scope.
+
+(** rescale_graph_same_program: sizes and times x c, rates / c, Ne x c: identical (T, nu, M), identical program *)
+Theorem C16_rescale_graph_same_program : forall ws pnu c (g : graph R) evs sampled frozen Ne ns,
+  0 < c -> wf_graph g -> has_root g ->
+  core ws pnu (gmap c c (/ c) g) (evmap c evs) sampled frozen (scale_Ne c Ne) ns = core ws pnu g evs sampled frozen Ne ns.
+Proof. exact core_rescale. Qed.
+Print Assumptions C16_rescale_graph_same_program.
+
+(** the same for the whole importer (ancient samples, slicing, unit conversion), when the sizes of the frozen branches
+    scale with the graph *)
+Theorem C16_rescale_whole_importer : forall ws pnu gt c (g : graph R) sampled times new_ids sizes evs Ne ns,
+  0 < c -> (forall k, gt = Some k -> 0 < k) -> wf_graph g -> has_root_inf g ->
+  front ws pnu gt (gmap c c (/ c) g) sampled (option_map (map (Rmult c)) times) new_ids (map (Rmult c) sizes)
+        (evmap c evs) (scale_Ne c Ne) ns
+  = front ws pnu gt g sampled times new_ids sizes evs Ne ns.
+Proof. exact front_rescale. Qed.
+Print Assumptions C16_rescale_whole_importer.
+
+(** ... which a literal size (start_size=1 in the source) does not do *)
+Theorem C16_literal_frozen_size_refuted : exists c Ne : R, 0 < c /\
+  make_nu_func [(1, 1, SConstant)] 0 (c * Ne) <> make_nu_func [(1, 1, SConstant)] 0 Ne.
+Proof. exact literal_frozen_size_refuted. Qed.
+
+(** time_units_same_program (oracle: Graph.in_generations divides every time by generation_time k) *)
+Theorem C16_time_units_same_program : forall ws pnu k (g : graph R) sampled times new_ids sizes evs Ne ns, 0 < k ->
+  front ws pnu (Some k) g sampled times new_ids sizes evs Ne ns
+  = front ws pnu None (gmap (/ k) 1 1 g) sampled (option_map (map (Rmult (/ k))) times) new_ids sizes evs Ne ns.
+Proof. exact front_time_units. Qed.
+Print Assumptions C16_time_units_same_program.
+
+(** deme_order_permutes_axes: same calls, then the reorder with the permuted index list *)
+Theorem C16_deme_order_permutes_axes : forall ws pnu (g : graph R) evs sampled frozen Ne ns sigma is_,
+  let s1 := core_run ws pnu g evs sampled frozen Ne in
+  s_ok s1 = true -> indices_of sampled (s_ids s1) = Some is_ -> is_perm1 (map S is_) (length (s_ids s1)) = true ->
+  Permutation sigma (seq 0 (length sampled)) ->
+  core ws pnu g evs sampled frozen Ne ns
+    = rev (s_calls s1) ++ [simple_call F_reorder_pops [] (map S is_) []; simple_call F_from_phi [] ns sampled]
+  /\ core ws pnu g evs (permute sigma sampled 0%nat) frozen Ne (permute sigma ns 0%nat)
+    = rev (s_calls s1) ++ [simple_call F_reorder_pops [] (permute sigma (map S is_) 0%nat) [];
+                           simple_call F_from_phi [] (permute sigma ns 0%nat) (permute sigma sampled 0%nat)].
+Proof. exact order_permutes_axes. Qed.
+Print Assumptions C16_deme_order_permutes_axes.
+
+Theorem C16_final_axes_are_the_sampled_demes : forall ids sampled is_,
+  indices_of sampled ids = Some is_ -> reorder_labels ids (map S is_) = sampled.
+Proof. exact final_axes_are_sampled. Qed.
+
+Theorem C16_permuted_reorder_permutes_axes : forall cur ord sigma, Forall (fun i => (i < length ord)%nat) sigma ->
+  reorder_labels cur (permute sigma ord 0%nat) = permute sigma (reorder_labels cur ord) 0%nat.
+Proof. exact reorder_labels_permute. Qed.
+
+(** frozen_flags_wired (d = 1..5) *)
+Theorem C16_integration_call_wired : forall (ids : list nat) (T : R) (nus : list (sizefn R)) (M : list (list R)) (fr : list bool),
+  let d := length ids in (1 <= d <= 5)%nat -> length nus = d -> length fr = d ->
+  exists f, int_fname d = Some f /\
+    integ_calls std_wirings ids T nus M fr
+    = [mkCall f T nus (map (fun ab => nth (snd ab) (nth (fst ab) M []) 0) (offdiag d)) fr [] ids].
+Proof. exact integ_call_wired. Qed.
+
+Theorem C16_frozen_flags_wired : forall (g : graph R) frozen Ne iv,
+  let stp := mk_step g frozen Ne iv in
+  (1 <= length (st_live stp) <= 5)%nat ->
+  exists c, integ_calls std_wirings (st_live stp) (st_T stp) (st_nus stp) (st_M stp) (st_fr stp) = [c]
+            /\ c_ids c = st_live stp /\ c_fr c = map (fun id => mem id frozen) (c_ids c) /\ c_nus c = st_nus stp.
+Proof. exact frozen_flags_wired. Qed.
+Print Assumptions C16_frozen_flags_wired.
+
+Theorem C16_axes_carry_the_demes_of_the_next_interval : forall ws all evs (stp : step R) (s : st R),
+  s_ok (run_step ws all evs stp s) = true -> tleb (snd (st_iv stp)) (Fin 0) = false ->
+  exists nx, find (fun x => teqb (fst (st_iv x)) (snd (st_iv stp))) all = Some nx
+             /\ s_ids (run_step ws all evs stp s) = st_live nx.
+Proof. exact run_step_ids. Qed.
+
+(** the wiring of the current source (frozen5 <- frozen[3]) violates it *)
+Theorem C16_frozen_flags_miswired_refuted : exists (ids : list nat) (fr : list bool),
+  length ids = 5%nat /\ length fr = 5%nat /\
+  forall c, integ_calls (F:=R) wirings_frozen5_from_3 ids 0 (repeat (SNum 1) 5) [] fr = [c] -> c_fr c <> fr.
+Proof. exact frozen_flags_miswired_refuted. Qed.
+
+(** ancient_sample_is_frozen_branch *)
+Theorem C16_ancient_sample_is_frozen_branch : forall ws pnu gt (g : graph R) sampled times new_ids sizes evs Ne ns,
+  nmin_list times = 0 -> existsb (fun t => negb (Reqb t 0)) times = true ->
+  let l := map (fun x => mkAS (fst (fst (fst x))) (snd (fst (fst x)) - 0) (snd (fst x)) (snd x))
+               (combine (combine (combine sampled times) new_ids) sizes) in
+  front ws pnu gt g sampled (Some times) new_ids sizes evs Ne ns
+  = core ws pnu (match gt with Some k => in_generations k (explicit_branches l g) | None => explicit_branches l g end)
+         evs (sampled_names l) (frozen_names l) Ne ns.
+Proof. exact ancient_is_frozen_branch. Qed.
+Print Assumptions C16_ancient_sample_is_frozen_branch.
+
+(** export_import_same_program_partial.  Full statement (not proved): for every program of splits, admixture, pulses,
+    remove_pop, reorder_pops and constant / exponential / linear integrations, importing the exported graph yields the
+    original program up to relabelling.  Proved: the numeric content of a run of integrations (durations, size
+    functions, migration rates) survives export with any Nref, generation_time and re-import with Ne = Nref. *)
+Theorem C16_export_import_same_program_partial : forall Nref gt cs, Nref <> 0 -> gt <> 0 ->
+  map (reimport Nref gt) (export_chain Nref gt cs) = map native cs.
+Proof. exact export_import_chain. Qed.
+Print Assumptions C16_export_import_same_program_partial.
+
+(** non-vacuity: a root that splits in two; the hypotheses of the rescaling theorems hold for it, and the model run on
+    the rationals gives the native program  phi_1D; phi_1D_to_2D; two_pops(T=1/4, nu=(1/2, 3/2)); reorder; from_phi *)
+Definition split_graph {F} `{Num F} : graph F := mkGraph
+  [mkDeme 0 Inf [] [mkEpoch Inf n1 n2 n2 SConstant];
+   mkDeme 1 (Fin n1) [0%nat] [mkEpoch (Fin n1) n0 n1 n1 SConstant];
+   mkDeme 2 (Fin n1) [0%nat] [mkEpoch (Fin n1) n0 (n1 + n2)%num (n1 + n2)%num SConstant]] [] [].
+
+Example C16_nonvacuous :
+  wf_graph split_graph /\ has_root_inf split_graph /\
+  map (fun c => (c_fn c, c_T c, c_nus c, c_ids c))
+      (core (F:=Q) std_wirings true split_graph [(1%Q, ESplit 0 [1; 2]%nat)] [2; 1]%nat [] None [5; 4]%nat)
+  = [(F_phi_1D, 0%Q, [], [0%nat]); (F_phi_1D_to_2D, 0%Q, [], [1; 2]%nat);
+     (F_two_pops, (1 # 4)%Q, [SNum (1 # 2)%Q; SNum (3 # 2)%Q], [1; 2]%nat);
+     (F_reorder_pops, 0%Q, [], []); (F_from_phi, 0%Q, [], [2; 1]%nat)].
+Proof.
+  split; [|split].
+  - intros d Hd. cbn in Hd. destruct Hd as [<-|[<-|[<-|[]]]]; discriminate.
+  - eexists. split; [left; reflexivity|]. split; reflexivity.
+  - vm_compute. reflexivity.
+Qed.
